@@ -326,7 +326,10 @@ class XPathToken(Token[ta.XPathTokenType]):
                 return default
         else:
             if isinstance(token, XPathToken) and callable(token) and token.is_reference():
-                return token  # It's a function reference
+                # It's a function reference
+                if cls is None:
+                    return token
+                return self.validated_value(token, cls, promote, index)
 
             item = None
             for k, result in enumerate(token.select(copy(context))):
